@@ -10,6 +10,9 @@ structure Params where
   defaultM : Nat
   minK : Nat
   maxK : Nat
+  /-- shape of `operator=(kll_sketch&&)` in the current header (DSGen `life_kll_MOVE_ASSIGN_SHAPE = 2`): the source's cached
+      sorted view is released too -/
+  moveAssignResetsSource : Bool := false
 
 structure Sketch where
   self : Nat
@@ -250,12 +253,19 @@ def copyAssign (t o : Sketch) : M Sketch := do
   dtor { t with self := copy.self, view := none }
   pure t'
 
-/-- move assignment: member-wise swap (not `sorted_view_`), reset own view: (this, other) -/
-def moveAssign (t o : Sketch) : M (Sketch × Sketch) := do
+/-- move assignment, the part common to all shapes: member-wise swap (not `sorted_view_`), reset own view: (this, other).
+    (Whether the own view is released before or after the swaps makes no difference in a model with one heap.) -/
+def moveAssignCore (t o : Sketch) : M (Sketch × Sketch) := do
   optSwap t.self 0 o.self 0
   optSwap t.self 1 o.self 1
   let t' ← resetSortedView { o with self := t.self, view := t.view }
   pure (t', { t with self := o.self, view := o.view })
+
+/-- move assignment `t = std::move(o)`; `resetSrc`: `other.reset_sorted_view()` is part of it (the repaired shape: the
+    source receives this object's state and allocator, its cached view would be stale and foreign) -/
+def moveAssign (resetSrc : Bool) (t o : Sketch) : M (Sketch × Sketch) := do
+  let o ← if resetSrc then resetSortedView o else pure o
+  moveAssignCore t o
 
 /-- `a = std::move(a)`: every member swapped with itself -/
 def selfMoveAssign (t : Sketch) : M Sketch := resetSortedView t
